@@ -9,7 +9,32 @@ HOOK_COMMITS = subprocess.run(
 A1 = ("Assumes A1 (each actix handler holds the AppState mutex for its whole body, so request-level "
       "interleavings are all the behaviours threads could produce). Sampling, not proof.")
 
+A3 = ("The broker talks to the server only through the harness's SimClient (the UistClient trait is the seam, delivery "
+      "eager / lazy / Pending-delayed per request); the reqwest client and real sockets are outside the simulation. "
+      "Transport errors are outside every property's quantifier and are not injected. Sampling, not proof.")
+
 CHECKS = {
+  "C04": ("E3 broker", "seeded simulation of broker operation histories against an independent wire-fed ledger",
+          "A real UistBroker over the simulated transport (direct or in-memory JSON, eager/lazy/delayed futures) runs seeded histories of deposit/withdraw/send/liquidate/check/diff on datasets with gaps and price jumps; after every operation cash must equal deposits - withdrawals -/+ the trades the server returned.",
+          A3, "5/E3/C04"),
+  "C05": ("E3 broker", "seeded simulation against an independent wire-fed ledger",
+          "After every operation holdings, the trade log, pending exposure and holdings-with-pending are compared with a ledger fed only by the server's executions and the acceptance events; exact for whole shares, 1e-6 otherwise.",
+          A3, "5/E3/C05"),
+  "C06": ("E3 broker", "seeded simulation with per-request delivery modes (eager, lazy, Pending-delayed futures)",
+          "Every send_order is judged against the property's predicate on the broker's own reported state (boundary cash == cost constructed, zero size, Failed state, all six types); a forwarded order must have reached the exchange exactly once and unchanged by the time send_order returns whatever the delivery mode; a refusal must leave broker and exchange bit-identical.",
+          A3, "5/E3/C06"),
+  "C09": ("E3 broker", "seeded simulation with price jumps between submission and execution",
+          "After every check() that started Ready and long-only: Failed iff cash < 0 and shortfall + 1000 > liquidation value; Ready with negative cash implies a sell reached the exchange; once Failed always Failed, cash operations and orders refused without effect, in-flight fills still reconciled.",
+          A3, "5/E3/C09"),
+  "C10": ("E3 broker", "seeded simulation with scheduled holdings-map iteration order (hook H2)",
+          "Explicit and automatic liquidation requests over portfolios with non-integer bids and several positions, under a PRNG-chosen iteration order of the holdings map: the sells that reached the exchange must be market sells worth at least the amount at last seen bids, none above the position; failure queues nothing.",
+          A3, "5/E3/C10"),
+  "C11": ("E3 broker", "seeded simulation with quote gaps; identities re-evaluated after every operation",
+          "After every operation: get_quote equals the last quote delivered and is never dated after the clock; position value = qty x bid; total = cash + sum; liquidation <= total (== without costs); cost basis / profit recomputed from the broker's own log.",
+          A3, "5/E3/C11"),
+  "C12": ("E3 broker", "seeded simulation with realised weights-map iteration orders",
+          "At every diff the returned orders are compared as a set with the orders the property prescribes (computed from the broker's reported values and the real cost model), sells before buys, and the call is repeated with the weights map realised in another key order.",
+          A3, "5/E3/C12"),
   # id: (engine label, technique, level text, level note, design ref)
   "C01": ("E1 exchange+server", "seeded simulation of exchange/server histories with step rules over snapshots",
           "Seeded search over interleavings of insert/delete/tick from several simulated clients on generated datasets (gaps, jumps, irregular clocks), bare exchange and server (direct and in-memory JSON path); every fill is checked against the pre-tick snapshot, the tick's own quotes and the clock at submission.",
